@@ -34,6 +34,9 @@ type Step struct {
 	B uint64 `json:"b,omitempty"` // booking index (0 = empty booking id)
 	C uint64 `json:"c,omitempty"` // code index (as issued by the session steps, 1..; 900+ = never issued)
 	N uint64 `json:"n,omitempty"` // connection name (fresh per connect)
+	// deny: Exp > 0 = the deny expires that many seconds from now (default 600); wait: Dt seconds
+	Exp int `json:"exp,omitempty"`
+	Dt  int `json:"dt,omitempty"`
 }
 
 // Ev is one abstract event of Model/HubFaults.v
@@ -70,9 +73,10 @@ func (s *Scenario) Budget() int {
 	b := 25
 	for _, st := range s.Steps {
 		b += 4
-		if st.K == "stall-flood" || st.K == "status-churn-flood" || st.K == "junk-dials-during-sessions" {
-			b += 10
+		if st.K == "stall-flood" || st.K == "status-churn-flood" || st.K == "junk-dials-during-sessions" || st.K == "stall-flood-deny" || st.K == "stall-flood-expiry" {
+			b += 12
 		}
+		b += st.Dt
 	}
 	return b
 }
@@ -81,7 +85,7 @@ var bookingNames = []string{"", "c08-bk-A", "c08-bk-B", "c08-bk-C"}
 
 // ---------------------------------------------------------------- generators
 var faultKinds = []string{"oversize", "reserved-opcode", "unmasked", "big-control", "truncated", "rst", "half-close", "stall-flood", "idle-stall",
-	"status-churn-flood", "junk-dials-during-sessions"}
+	"status-churn-flood", "junk-dials-during-sessions", "stall-flood-deny", "stall-flood-expiry"}
 
 func genFaults(r *lib.Rng, i int) *Scenario {
 	sc := &Scenario{Kind: "faults", BufferSize: r.Range(1, 2)}
@@ -102,11 +106,17 @@ func genFaults(r *lib.Rng, i int) *Scenario {
 				st.Msgs, st.Size = r.Range(18, 26), 1<<20
 			}
 		}
-		if kind == "status-churn-flood" || kind == "junk-dials-during-sessions" {
+		if kind == "status-churn-flood" || kind == "junk-dials-during-sessions" || kind == "stall-flood-deny" || kind == "stall-flood-expiry" {
 			if heavy[kind] {
 				st.K = "half-close"
 			}
 			heavy[kind] = true
+		}
+		if st.K == "stall-flood-deny" || st.K == "stall-flood-expiry" {
+			// the relay's writer for the stalled reader must be blocked in the middle of a write while the
+			// reader is still registered: a queue long enough not to fill during the flood
+			sc.BufferSize = 64
+			st.Msgs, st.Size = r.Range(24, 28), 1<<20
 		}
 		sc.Steps = append(sc.Steps, st)
 	}
@@ -146,9 +156,28 @@ func genAPI(r *lib.Rng, i int) *Scenario {
 		session(b)
 		connect(nextCode - 1)
 	}
+	if i%3 == 1 {
+		// a deny whose own expiry passes before the store is pruned, then the booking is used again
+		b := uint64(r.Range(1, int(nb)))
+		add(Step{K: "deny", B: b, Exp: 1})
+		add(Step{K: "wait", Dt: r.Range(2, 3)})
+		session(b)
+		if r.Bool() {
+			add(Step{K: "deny", B: b, Exp: 1})
+			add(Step{K: "wait", Dt: 2})
+		}
+		add(Step{K: "allow", B: b})
+		session(b)
+		connect(nextCode - 1)
+	}
 	n := r.Range(8, 16)
 	for k := 0; k < n; k++ {
 		b := uint64(r.Range(1, int(nb)))
+		if r.Chance(1, 30) {
+			add(Step{K: "deny", B: b, Exp: 1})
+			add(Step{K: "wait", Dt: 2})
+			continue
+		}
 		switch x := r.Intn(100); {
 		case x < 22:
 			if r.Chance(1, 15) {
@@ -229,6 +258,8 @@ func (s *Scenario) coqApi() []string {
 		case "send":
 			xs = append(xs, lib.App("ASend", lib.N(st.N), lib.N(7)))
 		}
+		// "wait" is not an event of the model: nothing the relay's goroutines see happens (the deny
+		// store is pruned every 10 min in these runs, an entry whose expiry has passed stays until then)
 	}
 	return xs
 }
@@ -236,6 +267,9 @@ func (s *Scenario) coqApi() []string {
 func (r *ScenResult) coqApiObs() []string {
 	var xs []string
 	for _, so := range r.Steps {
+		if so.K == "wait" {
+			continue
+		}
 		a := map[string]string{"ok": "AOk", "refused": "ARefused", "unit": "AUnit"}[so.Answer]
 		if a == "" {
 			a = "AUnit"
@@ -272,8 +306,13 @@ func (c *child) emit(so StepObs) {
 
 // open gets a code through the access API and dials; ua tags the connection in /status.
 func (c *child) open(topic, bid, ua string) (*websocket.Conn, error) {
+	return c.openExp(topic, bid, ua, 300)
+}
+
+// openExp: as open, with a token that expires expIn seconds from now
+func (c *child) openExp(topic, bid, ua string, expIn int64) (*websocket.Conn, error) {
 	now := time.Now().Unix()
-	cl := c.rl.Claims(topic, bid, []string{"read", "write"}, now-1, now-1, now+300)
+	cl := c.rl.Claims(topic, bid, []string{"read", "write"}, now-1, now-1, now+expIn)
 	st, uri, code := c.rl.Session(topic, lib.Sign(cl, c.rl.Secret))
 	if st != 200 || code == "" {
 		return nil, fmt.Errorf("session answered %d", st)
@@ -435,7 +474,7 @@ func childScenario(inPath, outPath string) {
 		fmt.Fprintln(os.Stderr, err)
 		os.Exit(4)
 	}
-	rl := lib.StartRelay(lib.RelayOpts{BufferSize: int64(sc.BufferSize)})
+	rl := lib.StartRelay(lib.RelayOpts{BufferSize: int64(sc.BufferSize), PruneEvery: 10 * time.Minute})
 	c := &child{rl: rl, sc: &sc, out: f, stats: rl.AdminBearer("relay:stats"), adm: rl.AdminBearer("relay:admin")}
 	if sc.Kind == "faults" {
 		c.runFaults()
@@ -553,7 +592,13 @@ func (c *child) runFaults() {
 			continue
 		}
 		n := uint64(100 + i) // abstract name of the faulty connection
-		f, err := c.open(topic, fmt.Sprintf("c08-bk-F%d", i), fmt.Sprintf("c08-conn-%d", n))
+		expIn := int64(300)
+		if st.K == "stall-flood-expiry" {
+			expIn = 3 // the token runs out while the relay's writer for this connection is blocked
+		}
+		fbid := fmt.Sprintf("c08-bk-F%d", i)
+		opened := time.Now()
+		f, err := c.openExp(topic, fbid, fmt.Sprintf("c08-conn-%d", n), expIn)
 		if err != nil {
 			so.Canary = "the relay no longer admits connections: " + err.Error()
 			so.Events = c.take()
@@ -584,6 +629,41 @@ func (c *child) runFaults() {
 		case "idle-stall":
 			tcp.SetReadBuffer(4096)
 			gone = false
+		case "stall-flood-deny", "stall-flood-expiry":
+			tcp.SetReadBuffer(4096) // never read: after a few MiB the relay's writer for this connection blocks mid-write
+			gone = false
+			for k := 0; k < st.Msgs; k++ {
+				if err := relay(st.Size); err != nil {
+					so.Pair = err.Error()
+					break
+				}
+				c.evs = append(c.evs, Ev{E: "Broadcast", N: W, A: uint64(100 + k)}, Ev{E: "Drain", N: R, Cap: 1})
+			}
+			if st.K == "stall-flood-deny" {
+				// ... and now its booking is cancelled
+				rs := c.rl.Deny(fbid, time.Now().Unix()+600, c.adm)
+				if rs.Err != nil || rs.Status != 204 {
+					so.Note = "deny-not-accepted"
+				}
+				c.evs = append(c.evs, Ev{E: "DenyBid", A: uint64(10 + i)})
+			} else {
+				time.Sleep(time.Until(opened.Add(4200 * time.Millisecond))) // ... and now its token has expired
+			}
+			time.Sleep(400 * time.Millisecond)
+			if so.Note == "" {
+				so.Note = "stalled-reader-closed-by-relay"
+				if l, err := c.listed("c08-conn-"); err == nil {
+					for _, x := range l {
+						if x == n {
+							so.Note = "stalled-reader-still-listed"
+						}
+					}
+				}
+			}
+			tcp.SetLinger(0)
+			tcp.Close()
+			c.evs = append(c.evs, Ev{E: "Unregister", N: n})
+			time.Sleep(150 * time.Millisecond)
 		case "stall-flood":
 			tcp.SetReadBuffer(4096) // and never read: the relay's writer for this connection blocks once the kernel buffers are full
 			gone = false
@@ -894,8 +974,14 @@ func (c *child) runAPI() {
 			if conn := conns[st.N]; conn != nil {
 				conn.Close()
 			}
+		case "wait":
+			time.Sleep(time.Duration(st.Dt) * time.Second)
 		case "deny":
-			rs := c.rl.Deny(bookingNames[st.B], time.Now().Unix()+600, c.adm)
+			exp := int64(600)
+			if st.Exp > 0 {
+				exp = int64(st.Exp)
+			}
+			rs := c.rl.Deny(bookingNames[st.B], time.Now().Unix()+exp, c.adm)
 			so.Answer = "refused"
 			if rs.Err == nil && rs.Status == 204 {
 				so.Answer = "ok"
@@ -1046,8 +1132,14 @@ func scenString(s *Scenario, upto int) string {
 			xs = append(xs, fmt.Sprintf("connect(code%d)->conn%d", st.C, st.N))
 		case "disconnect", "send":
 			xs = append(xs, fmt.Sprintf("%s(conn%d)", st.K, st.N))
+		case "wait":
+			xs = append(xs, fmt.Sprintf("wait %ds", st.Dt))
 		case "deny", "allow":
-			xs = append(xs, fmt.Sprintf("%s(%s)", st.K, bookingNames[st.B]))
+			if st.Exp > 0 {
+				xs = append(xs, fmt.Sprintf("%s(%s, expires in %ds)", st.K, bookingNames[st.B], st.Exp))
+			} else {
+				xs = append(xs, fmt.Sprintf("%s(%s)", st.K, bookingNames[st.B]))
+			}
 		default:
 			xs = append(xs, st.K)
 		}
